@@ -164,6 +164,90 @@ Proof.
 Qed.
 
 (* ------------------------------------------------------------------------------------------ *)
+(* the answer as a sorted prefix of the brute-force list; invariance under renumbering        *)
+
+Lemma c11_enum_fst : forall keys i, map fst (c11_enum i keys) = keys.
+Proof. induction keys; intros; cbn [c11_enum map fst]; [|rewrite IHkeys]; reflexivity. Qed.
+
+Lemma c11_sort_keys_sorted : forall l, Sorted Z.le (map fst (c11_sort l)).
+Proof.
+  intros l. pose proof (c11_sort_sorted l) as H. induction H as [|a l' Hs IH Hf]; cbn [map]; [constructor|].
+  constructor; auto. destruct l' as [|b l'']; cbn [map]; constructor.
+  inversion Hf; subst. assumption.
+Qed.
+
+(* the distances of the k nearest are the first k entries of the sorted list of all distances *)
+Lemma c11_knn_sorted_prefix : forall keys k,
+  exists sorted, Sorted Z.le sorted /\ Permutation sorted keys /\ map fst (c11_knn keys k) = firstn k sorted.
+Proof.
+  intros keys k. exists (map fst (c11_sort (c11_enum 0 keys))). split; [apply c11_sort_keys_sorted|]. split.
+  - rewrite <- (c11_enum_fst keys 0) at 2. apply Permutation_map, c11_sort_perm.
+  - unfold c11_knn. symmetry. apply firstn_map.
+Qed.
+
+(* renumbering the elements (any permutation of the distance list) does not change the distances
+   answered, position by position: the answer is determined up to exact ties *)
+Lemma c11_knn_permutation_invariant : forall keys1 keys2 k, Permutation keys1 keys2 ->
+  map fst (c11_knn keys1 k) = map fst (c11_knn keys2 k).
+Proof.
+  intros keys1 keys2 k Hp. unfold c11_knn. rewrite <- !firstn_map. f_equal.
+  apply c11_sorted_le_unique; try apply c11_sort_keys_sorted.
+  eapply perm_trans; [apply Permutation_map, c11_sort_perm|].
+  eapply perm_trans; [|apply Permutation_sym, Permutation_map, c11_sort_perm].
+  rewrite !c11_enum_fst. exact Hp.
+Qed.
+
+Example c11_knn_permutation_nonvacuous :
+  map fst (c11_knn [5; 1; 7; 1; 0] 3) = [0; 1; 1] /\ map fst (c11_knn [1; 0; 1; 7; 5] 3) = [0; 1; 1].
+Proof. split; reflexivity. Qed.
+
+(* tie rule of the model (sklearn: "ties aside"): among equal distances the lower index comes first *)
+Definition c11_le2 (a b : Z * nat) : Prop := fst a < fst b \/ (fst a = fst b /\ (snd a <= snd b)%nat).
+
+Lemma c11_insert_sorted2 : forall x l, StronglySorted c11_le2 l -> Forall (fun y => (snd x < snd y)%nat) l ->
+  StronglySorted c11_le2 (c11_insert x l).
+Proof.
+  induction l as [|y l IH]; intros Hs Hf; cbn [c11_insert]; [repeat constructor|].
+  inversion Hs as [|? ? Hs' Hfy]; subst. inversion Hf as [|? ? Hxy Hf']; subst.
+  destruct (fst y <? fst x) eqn:E.
+  - constructor; [apply IH; auto|].
+    eapply Permutation_Forall; [apply Permutation_sym, c11_insert_perm|]. constructor; auto.
+    left. lia.
+  - constructor; [constructor; auto|]. constructor.
+    + unfold c11_le2. destruct (Z.eq_dec (fst x) (fst y)); [right; split; lia | left; lia].
+    + rewrite Forall_forall in *. intros z Hz. specialize (Hfy z Hz). specialize (Hf' z Hz).
+      unfold c11_le2 in *. destruct (Z.eq_dec (fst x) (fst z)); [right; split; lia | left; lia].
+Qed.
+
+Lemma c11_enum_snd_ge : forall keys i p, In p (c11_enum i keys) -> (i <= snd p)%nat.
+Proof.
+  intros keys i [d j] H. apply c11_enum_In in H. cbn. lia.
+Qed.
+
+Lemma c11_sort_enum_sorted2 : forall keys i, StronglySorted c11_le2 (c11_sort (c11_enum i keys)).
+Proof.
+  induction keys as [|a keys IH]; intros i; cbn [c11_enum c11_sort fold_right]; [constructor|].
+  apply c11_insert_sorted2; [apply IH|].
+  rewrite Forall_forall. intros y Hy. cbn [snd].
+  apply (Permutation_in _ (c11_sort_perm _)) in Hy. apply c11_enum_snd_ge in Hy. lia.
+Qed.
+
+(* every returned entry precedes every later one in (distance, index) order: in particular the nearest
+   element is, among the minimal distances, the one with the lowest index *)
+Lemma c11_knn_tie_rule : forall keys k, StronglySorted c11_le2 (c11_knn keys k).
+Proof.
+  intros. unfold c11_knn. pose proof (c11_sort_enum_sorted2 keys 0%nat) as H.
+  revert H. generalize (c11_sort (c11_enum 0 keys)). intros l. revert k.
+  induction l as [|x l IH]; intros k H; destruct k; cbn [firstn]; try constructor.
+  - inversion H; subst. apply IH; auto.
+  - inversion H as [|? ? Hs Hf]; subst. rewrite Forall_forall in *. intros y Hy. apply Hf.
+    rewrite <- (firstn_skipn k l). apply in_or_app; auto.
+Qed.
+
+Example c11_knn_tie_rule_nonvacuous : c11_knn [3; 1; 1; 0; 0] 4 = [(0, 3%nat); (0, 4%nat); (1, 1%nat); (1, 2%nat)].
+Proof. reflexivity. Qed.
+
+(* ------------------------------------------------------------------------------------------ *)
 (* radius                                                                                     *)
 
 Lemma c11_within_spec : forall keys rk d j,
